@@ -158,7 +158,7 @@ def copy_type(t, memo):
         memo[id(t)] = n
         n.elem = copy_type(t.elem, memo)
     elif t.kind == 'rec':
-        n = T('rec', closed=t.closed)
+        n = T('rec', closed=t.closed, lit=t.lit)
         memo[id(t)] = n
         n.fields = {k: copy_type(v, memo) for k, v in t.fields.items()}
     else:
@@ -190,6 +190,7 @@ class Checker(object):
         self.clashes.append({'ta': a, 'tb': b, 'a': render(a), 'b': render(b),
                              'ground': ground(a) and ground(b), 'cls': cls,
                              'where': self.where})
+        return self.clashes[-1]
 
     def finalize(self):
         for c in self.clashes:
@@ -197,6 +198,13 @@ class Checker(object):
                 a, b = c.pop('ta'), c.pop('tb')
                 c['a'], c['b'] = render(a), render(b)
                 c['ground'] = ground(a) and ground(b) and c['a'] != c['b']
+            if 'closed_side' in c:
+                # a field addressed on a record that lacks it: a ground clash exactly
+                # when the record is provably closed, i.e. its type is the type of a
+                # record literal (the other side, `{f: ?, ...}`, needs no determined
+                # field type: no closed record with these fields has f)
+                n = find(c.pop('closed_side'))
+                c['ground'] = n.kind == 'rec' and n.closed and n.lit
 
     def unify(self, a, b, ctx=None):
         """ctx: None or ('arglit', n_literal_fields) when b is the type of a record
@@ -252,7 +260,10 @@ class Checker(object):
                 # either direction: which rule comes first decides which side is the
                 # signature, and the class must not depend on the order
                 cls = 'rec_arg_lit' if ctx == 'arglit' else 'rec_head_lit'
-            self.clash(a, b, cls)
+            rec = self.clash(a, b, cls)
+            if a.closed != b.closed and cls == 'plain' and rec['cls'] == 'plain':
+                rec['cls'] = 'missing_field'
+                rec['closed_side'] = a if a.closed else b
             return False
         n = len(self.clashes)
         ok = True
@@ -374,6 +385,12 @@ class Checker(object):
             l = self.expr(e[2], env)
             if self.strict:
                 self.unify(l, self.mklist(a))
+            elif self.strict_neq:
+                # /repo types the expression form since c2ec532 (left: e, right: [e]);
+                # a mismatch belongs to the (fixed) class neq
+                self._cls = 'neq'
+                self.unify(l, self.mklist(a))
+                self._cls = None
             # `x in l` used as a value: Bool, but /repo has no signature for it (known
             # class neq); the lax run leaves its type open unless that class is on
             return BOOL() if (self.strict or self.strict_neq) else VAR()
